@@ -235,7 +235,7 @@ def run_case(case, ctx):
 		# ---- JSON ----
 		buf = io.StringIO()
 		try:
-			JSONResultsExporter().export(buf, res)
+			JSONResultsExporter(pretty=bool(case.get('pretty'))).export(buf, res)
 		except Exception as e:
 			raise Violation('exception', f'JSON export raised {type(e).__name__}: {e}', case)
 
@@ -286,7 +286,7 @@ def run_case(case, ctx):
 		# ---- archive ----
 		buf = io.StringIO()
 		try:
-			ResultsArchiveWriter().export(buf, res)
+			ResultsArchiveWriter(pretty=bool(case.get('pretty'))).export(buf, res)
 		except Exception as e:
 			raise Violation('exception', f'archive export raised {type(e).__name__}: {e}', case)
 		try:
@@ -378,8 +378,9 @@ def run_case(case, ctx):
 def gen_case(draw, tier):
 	w = draw(Wd.world(max_refs=6, max_queries=4, thr=WORLD_THR_C11))
 	labels = draw(st.lists(LABEL, min_size=1, max_size=6))
+	pretty = draw(st.sampled_from([False, False, True]))
 	if draw(st.booleans()):
-		return {'kind': 'real', 'world': w, 'labels': labels, 'order': draw(st.lists(st.integers(0, 10), min_size=1, max_size=5)),
+		return {'kind': 'real', 'pretty': pretty, 'world': w, 'labels': labels, 'order': draw(st.lists(st.integers(0, 10), min_size=1, max_size=5)),
 		        'strict': draw(st.booleans()), 'chunksize': draw(st.sampled_from([1000, 1, 3, None, 1000])),
 		        'report_closest': draw(st.sampled_from([10, 1, 3, 50])), 'file_inputs': draw(st.booleans())}
 	items = draw(st.lists(st.fixed_dictionaries({
@@ -388,7 +389,7 @@ def gen_case(draw, tier):
 		'compression': st.sampled_from([None, 'gzip', 'auto']), 'nclosest': st.integers(0, 4),
 	}), min_size=0, max_size=5))
 	ts = draw(st.datetimes(min_value=datetime.datetime(1970, 1, 2), max_value=datetime.datetime(2100, 1, 1)))
-	return {'kind': 'synthetic', 'world': w, 'labels': labels, 'seed': draw(st.integers(0, 2 ** 20)), 'items': items,
+	return {'kind': 'synthetic', 'pretty': pretty, 'world': w, 'labels': labels, 'seed': draw(st.integers(0, 2 ** 20)), 'items': items,
 	        'dists': draw(st.lists(st.floats(0, 1, width=32), min_size=1, max_size=5)), 'f32': draw(st.sampled_from([True, True, False])),
 	        'params': [draw(st.booleans()), draw(st.sampled_from([1000, None, 1, 77])), draw(st.integers(1, 100))],
 	        'version': draw(st.one_of(st.just('1.0.1'), TEXT)), 'timestamp': ts.isoformat(),
